@@ -66,6 +66,15 @@ POWERS = ("{p: for i in 1..12 return (n + i) ** 2, q: sum(for i in 1..25 return 
           "r: median([n + 1, m + 2, n - m, 1.5]), e: exp(m / 5) * exp(n / 5), x: n ** 7 - m ** 5, "
           "mean: mean(for i in 1..30 return n * i - m), sd: stddev([n, m, n + m, n - m, n * m])}")
 
+# every FeelNumber operation that takes a decimal context, on NON-integral arguments (integral ones return early in the C library):
+# floor/ceiling/decimal/modulo/abs/even/odd/number/string/comparison next to / and **
+ROUNDING = ("{f: for i in 1..40 return floor((n + i) / 7), c: for i in 1..40 return ceiling((m + i) / 7), "
+            "d: for i in 1..20 return decimal((n + i) / 3, 2), fm: for i in 1..20 return modulo(n + i / 2, 3), "
+            "ab: abs(-(n / 7)), ev: for i in 1..10 return even(floor(n / 3) + i), od: for i in 1..10 return odd(ceiling(m / 3) + i), "
+            "st: string(floor(n / 7)) + \"/\" + string(ceiling(m / 9)) + \"/\" + string(decimal(n / 7, 5)), num: number(string(n / 4)) + 1, "
+            "cmp: for i in 1..20 return floor((n + i) / 7) <= ceiling((n + i) / 7), sq: sqrt(abs(n) + 0.5), "
+            "mix: sum(for i in 1..30 return floor((n * i + m) / 11) - ceiling((m * i - n) / 13))}")
+
 ZONES = ["Europe/Warsaw", "America/New_York", "Australia/Sydney", "Asia/Tokyo", "America/Sao_Paulo", "Africa/Johannesburg",
          "Europe/London", "Asia/Kolkata", "Pacific/Auckland", "America/Los_Angeles"]
 
@@ -118,6 +127,7 @@ def build():
     # --- leaf invocables -------------------------------------------------------------------------------
     parts.append(_decision("Numeric", "_numeric", _req_inputs(["n", "m"]), _literal(NUMERIC), "number"))
     parts.append(_decision("Powers", "_powers", _req_inputs(["n", "m"]), _literal(POWERS)))
+    parts.append(_decision("Rounding", "_rounding", _req_inputs(["n", "m"]), _literal(ROUNDING)))
     parts.append(_decision("Temporal", "_temporal", _req_inputs(["d", "ts", "k"]), _literal(TEMPORAL)))
     parts.append(_decision("Regex", "_regex", _req_inputs(["s", "k"]), _literal(REGEX)))
     parts.append(_decision("Grid", "_grid", _req_inputs(["k", "n"]),
@@ -164,13 +174,13 @@ XML = build()
 
 # invocables by workload class (the property's "numeric, temporal, regular-expression and decision-table heavy")
 CLASSES = {
-    "numeric": ["Numeric", "Powers"],
+    "numeric": ["Numeric", "Powers", "Rounding"],
     "temporal": ["Temporal"],
     "regex": ["Regex", "Priority"],
     "table": ["Grid", "Collect", "Priority"],
     "nested": ["Top", "Mid", "Outer", "Svc", "Leaf", "Calc", "Band"],
 }
-INVOCABLES = ["Numeric", "Powers", "Temporal", "Regex", "Grid", "Collect", "Priority", "Base", "Leaf", "Svc", "Calc", "Band",
+INVOCABLES = ["Numeric", "Powers", "Rounding", "Temporal", "Regex", "Grid", "Collect", "Priority", "Base", "Leaf", "Svc", "Calc", "Band",
               "Mid", "Top", "Outer"]
 
 
